@@ -8,6 +8,7 @@ import (
 	"os"
 	"os/exec"
 	"path/filepath"
+	"regexp"
 	"sort"
 	"strings"
 	"sync"
@@ -374,8 +375,13 @@ func (e *Env) runBlock(o FanOpts, agg *Agg, start, count int) (int, error) {
 	if inProgress < 0 && !killed {
 		return completed, troublef("worker for %s exited with %d outside a unit (units %d..%d):\n%s", o.Prop, exit, start, start+count-1, tail(stderr.String(), 4000))
 	}
-	if o.OnDeath != nil {
-		if f := o.OnDeath(inProgress, exit, stderr.String(), killed || memKilled); f != nil {
+	onDeath := o.OnDeath
+	if onDeath == nil {
+		onDeath = func(run, exit int, stderr string, killed bool) *Failure { return CrashFailure(stderr, killed) }
+	}
+	if onDeath != nil {
+		if f := onDeath(inProgress, exit, stderr.String(), killed || memKilled); f != nil {
+			f.ProcStart = start
 			f.Run = inProgress
 			f.Variant = o.Variant
 			agg.mu.Lock()
@@ -399,6 +405,41 @@ func tail(s string, n int) string {
 		return "..." + s[len(s)-n:]
 	}
 	return s
+}
+
+var crashHead = regexp.MustCompile(`(?m)^(fatal error: .*|panic: .*|runtime: goroutine stack exceeds .*)$`)
+
+// CrashFailure attributes the death of a worker process to the code under test when the Go
+// runtime said why on stderr (a fatal error - stack overflow, unlock of unlocked mutex, all
+// goroutines asleep - or a panic that no task of the simulation could have recovered) and the
+// stack names a frame of soy.  The site is the runtime's message and the innermost soy function,
+// without addresses, so that the same crash in a fresh process matches.
+func CrashFailure(stderr string, killed bool) *Failure {
+	if killed {
+		return nil
+	}
+	m := crashHead.FindString(stderr)
+	if m == "" {
+		return nil
+	}
+	if len(m) > 120 {
+		m = m[:120]
+	}
+	fn := ""
+	for _, l := range strings.Split(stderr[strings.Index(stderr, m):], "\n") {
+		l = strings.TrimSpace(l)
+		if strings.HasPrefix(l, "github.com/robfig/soy") && strings.Contains(l, "(") {
+			fn = l[:strings.LastIndex(l, "(")]
+			if k := strings.LastIndex(fn, "/"); k >= 0 {
+				fn = fn[k+1:]
+			}
+			break
+		}
+	}
+	if fn == "" {
+		return nil // nothing of soy on the stack: the machinery's own trouble
+	}
+	return &Failure{Class: "crash", Site: m + " in " + fn, Detail: "the worker process died: " + m + "\n" + tail(stderr, 3000), Replay: json.RawMessage(`{"crash":true}`)}
 }
 
 // ReplayResult is what a replay in a fresh process observed.
@@ -474,12 +515,17 @@ func (e *Env) runCollect(variant string, args []string, wall time.Duration, env 
 		}
 	}
 	res.Stderr = stderr.String()
+	begun := -1
 	for _, line := range strings.Split(stdout.String(), "\n") {
 		var u unitMsg
 		if json.Unmarshal([]byte(line), &u) != nil {
 			continue
 		}
+		if u.Ev == "begin" {
+			begun = u.Run
+		}
 		if u.Ev == "end" {
+			begun = -1
 			for _, f := range u.Fails {
 				f.Run = u.Run
 			}
@@ -487,6 +533,12 @@ func (e *Env) runCollect(variant string, args []string, wall time.Duration, env 
 		}
 		if u.Ev == "trouble" {
 			res.Trouble = u.Trouble
+		}
+	}
+	if res.Exit != 0 && begun >= 0 {
+		if f := CrashFailure(res.Stderr, res.Killed); f != nil {
+			f.Run = begun
+			res.Fails = append(res.Fails, f)
 		}
 	}
 	return res
